@@ -236,24 +236,58 @@ def build_hedger_case(torch, c):
     return hedger, deriv, hedge
 
 
+def oracle_spots(c, shift):
+    """hedge prices [N][H][T] from the harness's own data (never read back from instrument.spot, which an implementation could
+    cache): primaries = the injected rows, listed = a * (their underlier's rows) + b; `shift` rolls the time axis (second round)"""
+    roll = lambda rows: [list(r[shift:]) + list(r[:shift]) for r in rows]
+    und = roll(c["hedges"][0]["spot"])
+    per_h = []
+    for i, h in enumerate(c["hedges"]):
+        if i == 0 or h["kind"] == "primary":
+            per_h.append(roll(h["spot"]))
+        elif h["kind"] == "listed":
+            per_h.append([[h["a"] * x + h["b"] for x in r] for r in roll(h["spot"])])
+        else:
+            per_h.append([[h["a"] * x + h["b"] for x in r] for r in und])
+    N = c["N"]
+    return [[per_h[k][n] for k in range(len(per_h))] for n in range(N)]
+
+
 def run_hedger_case(torch, ctx, c, which):
+    """two rounds on the SAME hedger / instruments: the injected market, then the same market rolled by one time step and
+    re-injected into the same objects (a second simulation followed by a second P&L call)"""
     try:
         hedger, deriv, hedge = build_hedger_case(torch, c)
     except Exception as e:  # noqa  (constructing the scenario is harness code)
         raise InternalError("cannot build hedger scenario: " + repr(e))
     watch = [("derivative", deriv)] + [(f"hedge{i}", h) for i, h in enumerate(hedge)]
-    with torch.no_grad():
-        unit = hedger.compute_hedge(deriv, hedge)
-        spot = torch.stack([h.spot for h in hedge], dim=1)
-        payoff = deriv.payoff()
-        fn = hedger.compute_pl if which == "pl" else hedger.compute_portfolio
-        st, v, mut = call_impl(fn, deriv, hedge, watch=watch)
-    if mut:
-        ctx.mutated(f"Hedger.compute_{which}", mut, c)
-    cost = [F(float(torch.tensor(h.cost))) for h in hedge]
-    sp, un = tensor_to_fracs(spot), tensor_to_fracs(unit)
-    pf = tensor_to_fracs(payoff) if which == "pl" else None
-    return st, (tensor_to_fracs(v) if st == "ok" else v), sp, un, cost, pf
+    dt = torch.float64
+    out = []
+    for rnd, shift in enumerate((0, 1)):
+        if rnd == 1:
+            roll = lambda rows: [list(r[shift:]) + list(r[:shift]) for r in rows]
+            for i, h in enumerate(c["hedges"]):
+                t_ = torch.tensor([[float(x) for x in r] for r in roll(h["spot"])], dtype=dt)
+                if i == 0 or h["kind"] == "primary":
+                    hedge[i].register_buffer("spot", t_)
+                elif h["kind"] == "listed":
+                    hedge[i].ul().register_buffer("spot", t_)
+        with torch.no_grad():
+            unit = hedger.compute_hedge(deriv, hedge)
+            seen = torch.stack([h.spot for h in hedge], dim=1)
+            payoff = deriv.payoff()
+            fn = hedger.compute_pl if which == "pl" else hedger.compute_portfolio
+            st, v, mut = call_impl(fn, deriv, hedge, watch=watch)
+        if mut:
+            ctx.mutated(f"Hedger.compute_{which}", mut, c)
+        cost = [F(float(torch.tensor(h.cost))) for h in hedge]
+        sp, un = oracle_spots(c, shift), tensor_to_fracs(unit)
+        if tensor_to_fracs(seen) != sp:
+            ctx.fail("the price reported by a hedging instrument (listed derivative: its pricer on the underlier's CURRENT buffers) is not the current one",
+                     _small_h(c, which) | {"round": rnd}, key="hedger.hedge-spot:stale", detail={"reported": enc_rat(tensor_to_fracs(seen)), "current": enc_rat(sp)})
+        pf = tensor_to_fracs(payoff) if which == "pl" else None
+        out.append((rnd, st, (tensor_to_fracs(v) if st == "ok" else v), sp, un, cost, pf))
+    return out
 
 
 def check(ctx):
@@ -324,7 +358,7 @@ def check(ctx):
         c = gen_hedger(g, ctx.tier)
         for which in ("pl", "portfolio"):
             try:
-                st, v, sp, un, cost, pf = run_hedger_case(torch, ctx, c, which)
+                rounds = run_hedger_case(torch, ctx, c, which)
             except InternalError:
                 raise
             except Exception as e:  # noqa
@@ -332,30 +366,31 @@ def check(ctx):
                 ctx.fail(f"Hedger.compute_{which} raised on a well-formed market", _small_h(c, which),
                          key=f"hedger.compute_{which}:raise", detail=repr(e)[:300])
                 continue
-            N, H, T = len(sp), len(sp[0]), len(sp[0][0])
-            ok = all(exact_sum_ok(terms_for_guard(s, u, cost), 53) for s, u in zip(sp, un)) and \
-                all(is_dyadic_fit(x, 40) for p in un for r in p for x in r)
-            for k, vv in c["tags"].items():
-                ctx.stats[f"h:{k}={vv}"] += 1
-            moved = any(len(set(r)) > 1 for p in un for r in p)
-            ctx.case(_small_h(c, which), ok and moved and any(x > 0 for x in cost), tag="hedger_" + which)
-            ctx.traces += 1
-            if not ok:
-                ctx.stats["skipped_inexact"] += 1
-                continue
-            req = {"op": "pl", "ss": [N, H, T], "su": [N, H, T], "spot": enc_rat(sp), "unit": enc_rat(un),
-                   "cost": enc_rat(cost), "payoff": None if pf is None else {"dim": 1, "data": enc_rat(pf)},
-                   "first": True, "final": False}
-            reqs.append(req)
-            metas.append((c, which, st, v, sp, un, cost, pf))
-            # property predicate
-            if st == "ok":
-                exp = [wealth(s, u, cost, (pf[i] if pf is not None else None), True)
-                       for i, (s, u) in enumerate(zip(sp, un))]
-                if v != exp:
-                    ctx.fail(f"Hedger.compute_{which} differs from the wealth identity on the hedge spots, its own hedge, the instruments' costs and the payoff",
-                             _small_h(c, which), key=f"hedger.compute_{which}:value",
-                             detail={"impl": enc_rat(v), "wealth": enc_rat(exp), "cost": enc_rat(cost)})
+            for rnd, st, v, sp, un, cost, pf in rounds:
+              N, H, T = len(sp), len(sp[0]), len(sp[0][0])
+              ok = all(exact_sum_ok(terms_for_guard(s, u, cost), 53) for s, u in zip(sp, un)) and \
+                  all(is_dyadic_fit(x, 40) for p in un for r in p for x in r)
+              for k, vv in c["tags"].items():
+                  ctx.stats[f"h:{k}={vv}"] += 1
+              moved = any(len(set(r)) > 1 for p in un for r in p)
+              ctx.case(_small_h(c, which), ok and moved and any(x > 0 for x in cost), tag="hedger_" + which)
+              ctx.traces += 1
+              if not ok:
+                  ctx.stats["skipped_inexact"] += 1
+                  continue
+              req = {"op": "pl", "ss": [N, H, T], "su": [N, H, T], "spot": enc_rat(sp), "unit": enc_rat(un),
+                     "cost": enc_rat(cost), "payoff": None if pf is None else {"dim": 1, "data": enc_rat(pf)},
+                     "first": True, "final": False}
+              reqs.append(req)
+              metas.append((c, which, st, v, sp, un, cost, pf))
+              # property predicate
+              if st == "ok":
+                  exp = [wealth(s, u, cost, (pf[i] if pf is not None else None), True)
+                         for i, (s, u) in enumerate(zip(sp, un))]
+                  if v != exp:
+                      ctx.fail(f"Hedger.compute_{which} differs from the wealth identity on the hedge spots, its own hedge, the instruments' costs and the payoff",
+                               _small_h(c, which), key=f"hedger.compute_{which}:value",
+                               detail={"impl": enc_rat(v), "wealth": enc_rat(exp), "cost": enc_rat(cost)})
     try:
         outs = [model_result(m) for m in ctx.driver(reqs)]
     except DriverBroken as e:
